@@ -9,6 +9,10 @@
 
 using namespace verif;
 
+extern "C" void __asan_poison_memory_region(void const volatile*,size_t) __attribute__((weak));
+extern "C" void __tsan_read_range(void*,unsigned long) __attribute__((weak));
+static bool cachesim_sanitized(){ return __asan_poison_memory_region!=0 || __tsan_read_range!=0; }
+
 namespace{
 
 enum { SITE_OPBEGIN=1, SITE_OPEND=2 };
@@ -41,14 +45,14 @@ struct CacheEngine: Engine{
     Rng r(stream_seed(rs,STREAM_PLAN));
     Json p=Json::object();
     p["engine"]="cachesim"; p["property"]=prop.empty()?"C19":prop; p["verif_seed"]=(long long)vseed; p["run"]=(long long)index;
-    int cap=r.range(1,4);
+    int cap=1+(int)r.weighted({25,40,20,15});
     p["capacity"]=cap;
     int mode=(int)r.weighted({70,15,15}); // concurrent shared, sequential shared, sequential tls
     p["variant"]=(mode==2)?"tls":"shared";
-    int nthreads=(mode==0)?r.range(2,3):1;
+    int nthreads=(mode==0)?(r.chance(0.55)?3:2):1;
     int maxops=(mode==0)?5:12;
     if(tier=="thorough" && mode==0 && r.chance(0.2)) maxops=7;
-    int prefill=r.range(0,cap);
+    int prefill=r.chance(0.45)?cap:r.range(0,cap);      // a full cache is where pops contend
     p["prefill"]=prefill;
     Json threads=Json::array();
     for(int t=0;t<nthreads;t++){
@@ -68,7 +72,8 @@ struct CacheEngine: Engine{
     if(mode==0){
       int pol=(int)r.weighted({50,25,25});
       p["policy"]=pol;
-      p["pct_depth"]=r.range(1,3);
+      p["pct_depth"]=r.range(1,5);
+      p["coarse"]=r.chance(0.5)?1:0;
       p["spurious_pct"]=(int)(r.weighted({60,25,15})==0?0:(r.chance(0.6)?10:30));
     }else{
       p["policy"]=(int)POLICY_SEQUENTIAL; p["pct_depth"]=0; p["spurious_pct"]=0;
@@ -90,6 +95,7 @@ struct CacheEngine: Engine{
     if(tls && nthreads>1) nthreads=1;
     CacheIface* c=tls?make_tls_cache(cap):make_shared_cache(cap);
     cachesim_spurious_pct=(int)plan["spurious_pct"].as_int(0);
+    cachesim_coarse=(int)plan["coarse"].as_int(0);
     int prefill=(int)plan["prefill"].as_int(0); if(prefill>cap) prefill=cap; if(prefill<0) prefill=0;
     std::vector<int> model; // bounded LIFO of the sequential prefix / single-thread runs
     std::multiset<int> inserted;
@@ -113,13 +119,15 @@ struct CacheEngine: Engine{
     std::vector<int> replay;
     if(has_sched) for(size_t i=0;i<plan["schedule"].size();i++) replay.push_back((int)plan["schedule"][i].as_int(0));
     int policy=(int)plan["policy"].as_int(0);
+    // cooperative tasks unless a sanitizer is linked (its runtime does not follow context switches without annotations) or the thread-local variant is under test
+    sched_use_fibers((!tls && !plan["threads_real"].as_bool(false) && !cachesim_sanitized())?1:0);
     sched_begin(policy,(uint64_t)plan["sched_seed"].as_int(1),has_sched?(replay.empty()?(const int*)"":&replay[0]):0,(int)replay.size(),(int)plan["pct_depth"].as_int(0),4000);
     for(int t=0;t<nthreads;t++) sched_spawn(thread_body,&args[t]);
     sched_run();
     Json sched=Json::array();
     { const int* d=sched_decisions(); int n=sched_ndecisions(); for(int i=0;i<n;i++) sched.push(d[i]); }
     SchedResult sr=sched_end();
-    cachesim_spurious_pct=0;
+    cachesim_spurious_pct=0; cachesim_coarse=0;
     out.plan_patch=Json::object(); out.plan_patch["schedule"]=sched;
 
     // ---- oracle over the recorded history
